@@ -213,9 +213,25 @@ def other_sites(run: Run, fi: FuncInfo, g) -> int:
     return n_ob
 
 
+def recogniser_try_parses(model: PyModel, q: str, callee_names: tuple) -> bool:
+    """The recogniser decides by attempting the very parse it guards (try ... except ValueError: return False)."""
+    f = model.func(q)
+    for t in walk_no_nested(f.node):
+        if isinstance(t, ast.Try):
+            body_calls = {ast.unparse(c.func).split(".")[-1] for s in t.body for c in ast.walk(s) if isinstance(c, ast.Call)}
+            catches = any(h.type is None or "ValueError" in ast.unparse(h.type) or "Exception" in ast.unparse(h.type) for h in t.handlers)
+            returns_false = any(isinstance(r, ast.Return) and isinstance(r.value, ast.Constant) and r.value.value is False for h in t.handlers for r in ast.walk(h))
+            if body_calls & set(callee_names) and catches and returns_false:
+                return True
+    return False
+
+
 def strptime_guards(run: Run, model: PyModel) -> None:
     """Every strptime on item text is guarded by a recogniser that itself try-parses (calendar validity)."""
     def try_parses(q: str, callee_names: tuple) -> bool:
+        return recogniser_try_parses(model, q, callee_names)
+
+    def _unused(q: str, callee_names: tuple) -> bool:
         f = model.func(q)
         for t in walk_no_nested(f.node):
             if isinstance(t, ast.Try):
@@ -439,6 +455,10 @@ def check(run: Run) -> None:
 
     # ---- R4
     refusal_tables(run, model)
+    from ..effects import Effects
+    from ..indexing import hash_ack
+
+    hash_ack(run, model, Effects(model), "C08.R4")
 
     # ---- R5
     pr_ok = True
